@@ -274,6 +274,18 @@ func c04Bounds(c *Ctx, r *Report) {
 					if x.Low == nil && x.High == nil {
 						okAll = true
 					}
+					if dbg := os.Getenv("L4DEBUG"); dbg != "" && strings.Contains(name, dbg) {
+						hi := lin{}
+						if x.High != nil {
+							hi = p.lin(x.High)
+						}
+						fmt.Println("DBG slice", c.exprAt(fn, in.Pos()), "lo", lo, "hi", hi, "limit", limit, "->", okAll)
+						if os.Getenv("L4FACTS") != "" {
+							for _, f := range append(append([]dfact{}, p.global...), p.edgeFacts(b)...) {
+								fmt.Printf("   fact %s - %s <= %d (%s)\n", f.x, f.y, f.c, f.why)
+							}
+						}
+					}
 					report("C04.R1", in, "slice", okAll, desc)
 				case *ssa.MakeSlice:
 					if _, isC := constInt(x.Len); isC {
@@ -445,6 +457,266 @@ func c04R3(c *Ctx, r *Report, rule string) {
 			}
 		}
 	}
+
+	// ---- R8: every other unchecked type assertion ----
+	rule8 := "C04.R8"
+	r.rule(rule8, "every other unchecked type assertion x.(T) in per-connection code is justified: x is (a phi of) values boxed from T / keyed values whose producers store T / sync.Pool.Get of a pool whose New function and every Put store T; or the path evaluation of the function shows that x holds T on every path reaching the assertion", 6)
+	isKeyed := func(v ssa.Value) (space, key string, ok bool) {
+		if ex, isEx := v.(*ssa.Extract); isEx && ex.Index == 0 {
+			v = ex.Tuple
+		}
+		call, isCall := v.(*ssa.Call)
+		if !isCall {
+			return "", "", false
+		}
+		id := calleeID(call)
+		switch {
+		case id == "layer4.(*Connection).GetVar":
+			return "vars", keyOf(call.Call.Args[1]), true
+		case call.Call.IsInvoke() && call.Call.Method.Name() == "Value" && strings.Contains(typeStr(call.Call.Value.Type()), "context.Context"):
+			return "ctx", keyOf(call.Call.Args[0]), true
+		case strings.HasSuffix(id, "caddy/v2.Replacer).Get"):
+			return "repl", keyOf(call.Call.Args[1]), true
+		}
+		return "", "", false
+	}
+	typeOK := func(t, asserted types.Type) bool {
+		if types.Identical(t, asserted) {
+			return true
+		}
+		if iface, isI := asserted.Underlying().(*types.Interface); isI && types.Implements(t, iface) {
+			return true
+		}
+		return false
+	}
+	poolProducers := func(g *ssa.Global, asserted types.Type) (int, []string) {
+		n := 0
+		var bad []string
+		// Put sites
+		for _, fn := range c.Funcs {
+			for _, ci := range callsIn(fn) {
+				if calleeID(ci) != "(*sync.Pool).Put" {
+					continue
+				}
+				if gg, ok := ci.Common().Args[0].(*ssa.Global); !ok || gg != g {
+					continue
+				}
+				n++
+				if t := valType(ci.Common().Args[1]); !typeOK(t, asserted) {
+					bad = append(bad, "Put of "+typeStr(t)+" at "+c.ipos(ci))
+				}
+			}
+		}
+		// New function: the closure stored into the pool's New field by the package initialiser
+		if ini := g.Pkg.Func("init"); ini != nil {
+			for _, b := range ini.Blocks {
+				for _, in := range b.Instrs {
+					st, ok := in.(*ssa.Store)
+					if !ok {
+						continue
+					}
+					fa, ok := st.Addr.(*ssa.FieldAddr)
+					if !ok || fa.X != ssa.Value(g) {
+						continue
+					}
+					var nf *ssa.Function
+					switch v := st.Val.(type) {
+					case *ssa.Function:
+						nf = v
+					case *ssa.MakeClosure:
+						nf, _ = v.Fn.(*ssa.Function)
+					}
+					if nf == nil {
+						bad = append(bad, "New is not a function literal")
+						continue
+					}
+					for _, rv := range returnsOf(nf) {
+						n++
+						if len(rv.Results) != 1 || !typeOK(valType(rv.Results[0]), asserted) {
+							bad = append(bad, "New returns "+typeStr(valType(rv.Results[0]))+" at "+c.ipos(rv))
+						}
+					}
+				}
+			}
+		}
+		return n, bad
+	}
+	var justify func(v ssa.Value, asserted types.Type, seen map[ssa.Value]bool) (handled bool, bad []string, how string)
+	justify = func(v ssa.Value, asserted types.Type, seen map[ssa.Value]bool) (bool, []string, string) {
+		if seen[v] {
+			return true, nil, ""
+		}
+		seen[v] = true
+		switch x := v.(type) {
+		case *ssa.MakeInterface:
+			if typeOK(x.X.Type(), asserted) {
+				return true, nil, "boxed " + typeStr(x.X.Type())
+			}
+			return true, []string{"boxed from " + typeStr(x.X.Type())}, ""
+		case *ssa.Phi:
+			var bad []string
+			var hows []string
+			for _, e := range x.Edges {
+				h, b, how := justify(e, asserted, seen)
+				if !h {
+					return false, nil, ""
+				}
+				bad = append(bad, b...)
+				if how != "" {
+					hows = append(hows, how)
+				}
+			}
+			return true, bad, "phi{" + strings.Join(hows, "; ") + "}"
+		case *ssa.Call:
+			if calleeID(x) == "(*sync.Pool).Get" {
+				if g, ok := x.Call.Args[0].(*ssa.Global); ok {
+					n, bad := poolProducers(g, asserted)
+					if n < 2 {
+						bad = append(bad, "no New/Put producers found for the pool")
+					}
+					return true, bad, fmt.Sprintf("pool %s: %d New/Put producers of the asserted type", globalName(g), n)
+				}
+				return false, nil, ""
+			}
+		}
+		if space, key, ok := isKeyed(v); ok {
+			if key == "" {
+				return true, []string{"non-constant key"}, ""
+			}
+			ps := producers[space+"|"+key]
+			var bad []string
+			for _, pr := range ps {
+				if !typeOK(pr.t, asserted) {
+					bad = append(bad, "producer of "+typeStr(pr.t)+" at "+pr.pos)
+				}
+			}
+			if len(ps) == 0 {
+				bad = append(bad, "no producer for "+space+"["+key+"]")
+			}
+			return true, bad, fmt.Sprintf("%s[%s]: %d producer(s) of the asserted type", space, key, len(ps))
+		}
+		return false, nil, ""
+	}
+	for _, fn := range sortedFuncs(reach) {
+		n := 0
+		var unhandled []*ssa.TypeAssert
+		for _, b := range fn.Blocks {
+			for _, in := range b.Instrs {
+				ta, ok := in.(*ssa.TypeAssert)
+				if !ok || ta.CommaOk {
+					continue
+				}
+				if _, isCall := ta.X.(*ssa.Call); isCall {
+					if _, _, keyed := isKeyed(ta.X); keyed {
+						continue // R3
+					}
+				}
+				n++
+				k := fmt.Sprintf("%s.(%s)#%d", ta.X.Name(), typeStr(ta.AssertedType), n)
+				k = fmt.Sprintf("(%s)#%d", typeStr(ta.AssertedType), n)
+				handled, bad, how := justify(ta.X, ta.AssertedType, map[ssa.Value]bool{})
+				if !handled {
+					unhandled = append(unhandled, ta)
+					continue
+				}
+				r.check(len(bad) == 0, rule8, fname(fn), k, c.ipos(ta), how, fmt.Sprintf("the value is asserted to be %s without check, but: %s - the assertion panics in the connection goroutine", typeStr(ta.AssertedType), strings.Join(bad, "; ")))
+			}
+		}
+		if len(unhandled) == 0 {
+			continue
+		}
+		// path evaluation
+		sc := assertScenarios[fname(fn)]
+		k := fmt.Sprintf("%d assertion(s) by path evaluation", len(unhandled))
+		if sc == nil {
+			r.bad(rule8, fname(fn), k, c.ipos(unhandled[0]), "unchecked type assertion on a value of unknown dynamic type and no evaluation scenario for this function")
+			continue
+		}
+		paths, err := evalPaths(fn, sc())
+		if err != nil || len(paths) == 0 {
+			r.bad(rule8, fname(fn), k, c.ipos(unhandled[0]), fmt.Sprintf("undecided: %v", err))
+			continue
+		}
+		var problems []string
+		oks := 0
+		for _, p := range paths {
+			if p.Outcome == "cutoff" {
+				problems = append(problems, "exploration bound reached")
+			}
+			for _, e := range p.Trace {
+				switch e.Kind {
+				case "panic":
+					problems = append(problems, "panic: "+e.What+": "+strings.Join(e.Args, " ")+" after "+altNotes(p))
+				case "assert-unknown":
+					problems = append(problems, "assertion to "+e.What+" on a value of unknown dynamic type ("+strings.Join(e.Args, " ")+")")
+				case "assert-ok":
+					oks++
+				}
+			}
+		}
+		if oks == 0 {
+			problems = append(problems, "no path reaches the assertion")
+		}
+		r.check(len(problems) == 0, rule8, fname(fn), k, c.ipos(unhandled[0]), fmt.Sprintf("%d paths; the asserted value holds the asserted type on all %d paths that reach the assertion", len(paths), oks), strings.Join(dedup(problems), "; "))
+	}
+}
+
+func altNotes(p Path) string {
+	var s []string
+	for _, e := range p.Trace {
+		if e.Note != "" {
+			s = append(s, e.Note)
+		}
+	}
+	if len(s) > 14 {
+		s = append(s[:14], "...")
+	}
+	return "[" + strings.Join(s, ",") + "]"
+}
+
+// assertScenarios: evaluation scenarios for functions with an unchecked assertion whose justification is a path property.
+var assertScenarios = map[string]func() *Scenario{
+	"modules/l4http.(*MatchHTTP).handleHttp2WithPriorKnowledge": func() *Scenario {
+		const hf = "*golang.org/x/net/http2.HeadersFrame"
+		return &Scenario{
+			Name:     "http2 frames",
+			MaxVisit: 14,
+			MaxPaths: 20000,
+			Inline:   func(f *ssa.Function) bool { return false },
+			Alts: func(callee string, args []SV, ev *symEval, st *symState) []CallAlt {
+				if strings.HasSuffix(callee, "http2.Framer).ReadFrame") {
+					id := ev.fresh("frame")
+					h := SV{K: "ref", Known: true, Desc: id + ":headers", Dyn: hf}
+					o := SV{K: "ref", Known: true, Desc: id + ":other", Dyn: "*golang.org/x/net/http2.SettingsFrame"}
+					return []CallAlt{
+						{Ret: SV{K: "tuple", Desc: "rf", Elems: []SV{h, symNil()}}, Note: "headers"},
+						{Ret: SV{K: "tuple", Desc: "rf", Elems: []SV{o, symNil()}}, Note: "other"},
+						{Ret: SV{K: "tuple", Desc: "rf", Elems: []SV{symNil(), {K: "ref", Known: true, Desc: "readErr"}}}, Note: "err"},
+					}
+				}
+				return nil
+			},
+			Call: func(callee string, args []SV, ev *symEval, st *symState) (SV, bool) {
+				switch {
+				case callee == "invoke golang.org/x/net/http2.Frame.Header":
+					// library contract: a frame's header type is FrameHeaders (1) exactly for *HeadersFrame values
+					d := args[0].Desc + ".Header()"
+					t := int64(4)
+					if args[0].Dyn == hf {
+						t = 1
+					}
+					st.heap[d+".Type"] = symInt(t)
+					return SV{K: "opaque", Desc: d}, true
+				case strings.HasSuffix(callee, "hpack.Decoder).DecodeFull"):
+					z := symInt(0)
+					return SV{K: "tuple", Desc: "df", Elems: []SV{{K: "slice", Desc: "hdrs", Len: &z, Cap: &z}, {K: "ref", Known: true, Desc: "decodeErr"}}}, true
+				case callee == "io.ReadFull":
+					return SV{K: "tuple", Desc: "rd", Elems: []SV{{K: "int", Desc: "n"}, symNil()}}, true
+				}
+				return SV{}, false
+			},
+		}
+	},
 }
 
 func c04R5(c *Ctx, r *Report, rule string) {
